@@ -840,7 +840,7 @@ func scenarioC11(c *hlib.RunCtx) *hlib.Violation {
 	// server refuses what is larger than its own; while that finding is listed
 	// (window oversize-report) the week stays safely below the limit.
 	if t.Bool(1, 8) {
-		target := 40<<10 + t.Draw(50<<10)
+		target := 40<<10 + t.Draw(45<<10)
 		if !strings.Contains(c.Flag("windows"), "oversize-report") && t.Bool(1, 2) {
 			target = 80<<10 + t.Draw(60<<10)
 		}
